@@ -367,8 +367,13 @@ func runC20(r *Report) {
 		})
 		// header lengths in the parser: 10, 22, 7+v
 		hl := map[string]bool{}
+		// the header length is the integer phi the payload is sliced from (`data[headerLen:]`)
 		Instrs(pu, func(in ssa.Instruction) {
-			if ph, ok := in.(*ssa.Phi); ok && ph.Comment == "headerLen" {
+			sl, ok := in.(*ssa.Slice)
+			if !ok || sl.High != nil || sl.Low == nil || stripValue(sl.X) != pdata {
+				return
+			}
+			if ph, ok := stripValue(sl.Low).(*ssa.Phi); ok {
 				for _, e := range ph.Edges {
 					hl[linShape(e)] = true
 				}
